@@ -47,7 +47,9 @@ def run(pid, tier):
         with open(p, "w") as f:
             json.dump(rec, f)
         paths.append(p)
-    cov = {"programs": r["programs"], "configurations": r["configurations"], "inputs": r["cases"], "charts": r["charts"],
+    cov = {"evaluations": r["cases"], "distinct_nontrivial": r["configurations"],
+           "samples": [{"chart": charts[0]["id"], "tags": charts[0]["tags"], "states": len(charts[0]["states"]), "transitions": len(charts[0]["trans"])}],
+           "programs": r["programs"], "configurations": r["configurations"], "inputs": r["cases"], "charts": r["charts"],
            "charts_judged": r["charts_judged"], "timing": {k: r[k] for k in ("t_transform", "t_judge")},
            "unexplained_total": len(viol),
            "explanation": "programs = documents transpiled to VHDL whose equations were parsed; configurations = legal configurations enumerated by TLC over all of them; inputs = (configuration, situation, condition valuation) triples for which TLC evaluated the emitted equations and the specification's step"}
